@@ -226,9 +226,11 @@ impl<'a> Gen<'a> {
     fn global_only_decl(&mut self, global: bool) -> St {
         self.counter += 1;
         let n = self.counter;
-        let (text, what) = match self.r.below(4) {
+        let (text, what) = match self.r.below(6) {
             0 => (format!("qubit lq{n};"), "qubit"),
             1 => (format!("qubit[2] lqr{n};"), "qubit-register"),
+            4 => (format!("qubit ${};", 3 + n % 5), "hardware-qubit"),
+            5 => (format!("qubit[1] lq1r{n};"), "qubit-register-of-one"),
             2 => (format!("gate lg{n} x1 {{ }}"), "gate"),
             _ => (format!("def ld{n}() {{ }}"), "def"),
         };
@@ -239,9 +241,20 @@ impl<'a> Gen<'a> {
         }
     }
 
+    fn gphase_call(&mut self) -> St {
+        let modifier = *self.r.pick(&["", "", "inv @ ", "pow(2) @ ", "inv @ pow(2) @ "]);
+        let with_arg = self.r.bool();
+        St {
+            text: format!("{modifier}gphase({});", if with_arg { self.angle_arg() } else { String::new() }),
+            expect: if with_arg { vec![] } else { vec!["NumGateParamsError"] },
+            rule: format!("gate-call/gphase/np{}/{}", if with_arg { "+0" } else { "-1" }, if modifier.is_empty() { "plain" } else { "inv-pow" }),
+        }
+    }
+
     fn rule_stmt(&mut self, global: bool) -> St {
         loop {
-            return match self.r.below(12) {
+            return match self.r.below(13) {
+                12 => self.gphase_call(),
                 0..=3 => self.gate_call(),
                 4 => self.not_a_gate(global),
                 5 => self.operand_stmt(),
